@@ -31,22 +31,22 @@ const skyCompass = "compass-1"
 // consensus, treasury, metrix keepers on an in-memory multistore) plus the
 // fault-injecting proxies from the `verif` hook.
 type skyEnv struct {
-	t       *testing.T
-	in      skykeeper.TestInput
-	ctx     sdk.Context
-	k       skykeeper.Keeper // wrapped with fault proxies
-	raw     skykeeper.Keeper
-	fault   *skykeeper.VerifFault
-	ms      skytypes.MsgServer
-	gov     govv1beta1.Handler
-	cc      *libcons.ConsensusChecker
-	denoms  []string          // token id-1 -> denom
-	erc20   []string          // token id-1 -> contract
-	users   []sdk.AccAddress
-	valNonce uint64            // last skyway nonce every validator voted for
-	ethHeight uint64           // remote block height reported in the latest claim
-	height  int64
-	now     time.Time
+	t         *testing.T
+	in        skykeeper.TestInput
+	ctx       sdk.Context
+	k         skykeeper.Keeper // wrapped with fault proxies
+	raw       skykeeper.Keeper
+	fault     *skykeeper.VerifFault
+	ms        skytypes.MsgServer
+	gov       govv1beta1.Handler
+	cc        *libcons.ConsensusChecker
+	denoms    []string // token id-1 -> denom
+	erc20     []string // token id-1 -> contract
+	users     []sdk.AccAddress
+	valNonce  uint64 // last skyway nonce every validator voted for
+	ethHeight uint64 // remote block height reported in the latest claim
+	height    int64
+	now       time.Time
 }
 
 func newSkyEnv(t *testing.T, nUsers int) *skyEnv {
@@ -189,7 +189,7 @@ func (e *skyEnv) voteAll(mk func(orch sdk.AccAddress) sdk.Msg) int {
 
 type obsTx struct {
 	id, sender, tok int
-	amount, tax    string
+	amount, tax     string
 }
 
 func (e *skyEnv) poolTxs() []obsTx {
@@ -206,10 +206,10 @@ func (e *skyEnv) poolTxs() []obsTx {
 }
 
 type obsBatch struct {
-	tok, nonce int
+	tok, nonce   int
 	est, timeout uint64
-	txs []obsTx
-	raw skytypes.InternalOutgoingTxBatch
+	txs          []obsTx
+	raw          skytypes.InternalOutgoingTxBatch
 }
 
 func (e *skyEnv) batchList() []obsBatch {
